@@ -71,7 +71,9 @@ def verify_contract(c, prefix='', timeout_s=10, both=False, source_override=None
         if not obls:
             rep.vacuity.append('%s: zero obligations' % qn)
         for ob in obls:
-            rep.results.append(smt.discharge(ob, timeout_s=timeout_s, both=both))
+            # once two obligations of this function are undischarged the function is undecided anyway: later ones get one attempt, no re-seeding / second solver
+            degraded = len(rep.failed()) >= 2
+            rep.results.append(smt.discharge(ob, timeout_s=min(timeout_s, 4) if degraded else timeout_s, both=both and not degraded, retry=not degraded))
         # canary: `False` at a normal exit must NOT be provable (else the path conditions are contradictory)
         for cn in eng.canaries:
             n_canaries += 1
